@@ -9,8 +9,9 @@
               step carries the raw maps handed to the real code and what it answered (error, Err field,
               rendered effective value of the parameter's field).
    After every step the assignment in force (last raw map per source) is abstracted to value kinds and
-   the answer is judged against P_Config!Allowed; within a case, equal assignments must give equal
-   answers whatever the insertion order, the API used and Go's map iteration order (`memo`).
+   the answer is judged against P_Config!Allowed; within a case, equal raw assignments (same keys and
+   values per source) must give equal answers whatever the insertion order, the API used and Go's map
+   iteration order (`memo`).
 
    Strict = TRUE : a deviating run has no enabled action (the trace is rejected at that line).
    Strict = FALSE: the run is consumed and "REJECT <t> <line> <case> <signature>" is printed, so that
@@ -32,51 +33,61 @@ KindOfLit(x) == IF x \in NoneLits THEN "none"
                 ELSE IF x = dict.lit1 THEN "v1"
                 ELSE IF x = dict.lit2 THEN "v2"
                 ELSE IF x = dict.litbad THEN "bad" ELSE "?"
-\* raw = sequence of <<key, value>> pairs handed to the real code for one source
-KindsOf(raw) == { KindOfLit(raw[i][2]) : i \in { j \in DOMAIN raw : raw[j][1] \in Keys } }
+\* raw = sequence of <<key, value>> pairs handed to the real code for one source; the pairs that
+\* concern the parameter under test (any spelling of its key), and their value kinds
+PairsOf(raw) == { raw[i] : i \in { j \in DOMAIN raw : raw[j][1] \in Keys } }
+KindsIn(pairs) == { KindOfLit(p[2]) : p \in pairs }
 
-\* the assignment in force after step i of a run
-SetsOf(st, s) == { j \in DOMAIN st.sets : st.sets[j].src = s }
-Touches(st, s) == st.api = "all" \/ SetsOf(st, s) # {}
-EntryOf(st, s) == IF SetsOf(st, s) = {} THEN {}
-                  ELSE KindsOf(st.sets[CHOOSE j \in SetsOf(st, s) : \A k \in SetsOf(st, s) : k <= j].raw)
-AsgAt(steps, i) ==
-    [s \in P!Sources |->
-        LET J == { j \in 1..i : Touches(steps[j], s) } IN
-        IF J = {} THEN {} ELSE EntryOf(steps[CHOOSE j \in J : \A k \in J : k <= j], s)]
+\* the concrete assignment in force after each step of a run (C[i] after step i; per source the set of
+\* <<key, value>> pairs for this parameter): UpdateFrom replaces the raw map of one source,
+\* UpdateFromConfigUpdate ("all") replaces the maps of all sources
+NoAsg == [s \in P!Sources |-> {}]
+AbsOf(c) == [s \in P!Sources |-> KindsIn(c[s])]
+RECURSIVE Put(_, _, _)
+Put(asg, sets, j) == IF j > Len(sets) THEN asg ELSE Put([asg EXCEPT ![sets[j].src] = PairsOf(sets[j].raw)], sets, j + 1)
+RECURSIVE AsgSeq(_, _, _)
+AsgSeq(steps, prev, i) ==
+    IF i > Len(steps) THEN <<>>
+    ELSE LET cur == Put(IF steps[i].api = "all" THEN NoAsg ELSE prev, steps[i].sets, 1)
+         IN  <<cur>> \o AsgSeq(steps, cur, i + 1)
 
-ConcVal(v) == CASE v = "v1" -> dict.v1 [] v = "v2" -> dict.v2 [] v = "zero" -> dict.zero [] v = "def" -> dict.def
-Match(st, o) == st.err = o.err /\ (~o.err => st.val = ConcVal(o.val))
+\* "the default": the value the field has in a fresh config.New() or the default declared in the
+\* parameter's metadata (they differ for FelixHostname only, whose effective default is the host's name)
+ConcVals(v) == CASE v = "v1" -> {dict.v1} [] v = "v2" -> {dict.v2} [] v = "zero" -> {dict.zero}
+                 [] v = "def" -> {dict.def, dict.mdef}
+Match(st, o) == st.err = o.err /\ (~o.err => st.val \in ConcVals(o.val))
 ObsC(st) == IF st.err THEN <<TRUE, "-">> ELSE <<FALSE, st.val>>
 
 GotLabel(st) == IF st.err THEN "err"
                 ELSE IF st.val = dict.v1 THEN "v1" ELSE IF st.val = dict.v2 THEN "v2"
-                ELSE IF st.val = dict.def THEN "default" ELSE IF st.val = dict.zero THEN "zero" ELSE "other"
+                ELSE IF st.val \in {dict.def, dict.mdef} THEN "default" ELSE IF st.val = dict.zero THEN "zero" ELSE "other"
 KindList == <<"v1", "v2", "bad", "none">>
 RECURSIVE Join(_, _)
 Join(K, i) == IF i > 4 THEN "" ELSE (IF KindList[i] \in K THEN KindList[i] \o "." ELSE "") \o Join(K, i + 1)
 WantLabel(asg) == IF P!Setters(Cls, asg) = {} THEN "unset." ELSE Join(asg[P!Decider(Cls, asg)], 1)
 ClassLabel == (IF dict.local THEN "L" ELSE "-") \o (IF dict.die THEN "D" ELSE "-") \o (IF dict.nonzero THEN "N" ELSE "-")
 
-\* signature of step i of a run ("" = the step is what the property allows)
-StepSig(steps, i) ==
+\* signature of step i of a run ("" = the step is what the property allows);
+\* C[i] = concrete assignment in force after step i, O[i] = what the real code answered at step i.
+\* Order independence is demanded for equal CONCRETE raw maps (the same keys and values handed over
+\* again, in another insertion order, through another API, or just iterated differently by Go).
+StepSig(steps, C, O, i) ==
     LET st  == steps[i]
-        asg == AsgAt(steps, i)
-        earlier == memo \cup { <<AsgAt(steps, j), ObsC(steps[j])>> : j \in 1..(i - 1) }
+        asg == AbsOf(C[i])
+        allowed == P!Allowed(Cls, asg)
     IN  IF \E s \in P!Sources : "?" \in asg[s] THEN "harness:unclassified-literal"
-        ELSE IF ~\E o \in P!Allowed(Cls, asg) : Match(st, o) THEN
-            IF st.err /\ P!ErrOutcome \notin P!Allowed(Cls, asg) /\ P!ShadowedFatal(Cls, asg) # {}
+        ELSE IF ~\E o \in allowed : Match(st, o) THEN
+            IF st.err /\ P!ErrOutcome \notin allowed /\ P!ShadowedFatal(Cls, asg) # {}
               THEN "error-from-shadowed-source:" \o
                    (IF "bad" \in P!TopShadowedFatalKinds(Cls, asg) THEN "invalid-value-on-die-on-parse-failure-param"
                                                                    ELSE "none-on-non-zero-param")
               ELSE "wrong-outcome:class=" \o ClassLabel \o ":deciding=" \o WantLabel(asg) \o ":got=" \o GotLabel(st)
         ELSE IF st.err /\ ~st.errfield THEN "error-not-stored-in-Err"
-        ELSE IF \E m \in earlier : m[1] = asg /\ m[2] # ObsC(st) THEN
+        ELSE IF (\E m \in memo : m[1] = C[i] /\ m[2] # O[i]) \/ (\E j \in 1..(i - 1) : C[j] = C[i] /\ O[j] # O[i]) THEN
             IF P!Setters(Cls, asg) # {} /\ Cardinality(asg[P!Decider(Cls, asg)]) >= 2
               THEN "order-dependent:case-variant-keys-in-deciding-source"
               ELSE "order-dependent:class=" \o ClassLabel \o ":deciding=" \o WantLabel(asg)
         ELSE ""
-RunSigs(steps) == { StepSig(steps, i) : i \in DOMAIN steps } \ {""}
 
 TInit == l = 1 /\ dict = [ev |-> "none"] /\ memo = {}
 
@@ -84,11 +95,14 @@ TReset == IsEvent("reset") /\ dict' = Cur /\ memo' = {}
 TCase  == IsEvent("case") /\ memo' = {} /\ UNCHANGED dict
 TRun ==
     /\ IsEvent("run")
-    /\ LET sigs == RunSigs(Cur.steps) IN
-         IF sigs = {} THEN TRUE
-         ELSE ~Strict /\ \A sg \in sigs : PrintT("REJECT " \o ToString(Cur.t) \o " " \o ToString(l) \o " "
-                                                  \o ToString(Cur.case) \o " " \o sg)
-    /\ memo' = memo \cup { <<AsgAt(Cur.steps, i), ObsC(Cur.steps[i])>> : i \in DOMAIN Cur.steps }
+    /\ LET steps == Cur.steps
+           C == AsgSeq(steps, NoAsg, 1)
+           O == [i \in DOMAIN steps |-> ObsC(steps[i])]
+           sigs == { StepSig(steps, C, O, i) : i \in DOMAIN steps } \ {""}
+       IN  /\ IF sigs = {} THEN TRUE
+              ELSE ~Strict /\ \A sg \in sigs : PrintT("REJECT " \o ToString(Cur.t) \o " " \o ToString(l) \o " "
+                                                       \o ToString(Cur.case) \o " " \o sg)
+           /\ memo' = memo \cup { <<C[i], O[i]>> : i \in DOMAIN steps }
     /\ UNCHANGED dict
 
 TNext == TReset \/ TCase \/ TRun
